@@ -24,6 +24,26 @@ theorem C18_cancelled_at_start {α : Type} [Inhabited α] (lt : α → α → Bo
   simp only [h, if_true]
   rfl
 
+/-! ## the heapsort fallback: its (translated) loop ranges cover what they must -/
+
+/-- **every heap node that has a child is sifted by the build loop** (the loop range is translated from
+    `heapsort`'s source): a node whose first child lies inside the slice is inside the range the build
+    loop visits.  Without this the "heap" handed to the pop loop need not be a heap. -/
+theorem C18_heap_build_covers_parents (len node : Nat) (h : Gen.PS_heapChild node < len) :
+    Gen.PS_heapBuildLo len ≤ node ∧ node < Gen.PS_heapBuildHi len := by
+  unfold Gen.PS_heapChild at h
+  unfold Gen.PS_heapBuildLo Gen.PS_heapBuildHi
+  omega
+
+/-- the children of a node are `2·node + 1` and the position after it, and are below it in the heap order
+    (strictly larger index): sifting moves strictly down, so it terminates within `len` steps -/
+theorem C18_heap_child_below (node : Nat) : node < Gen.PS_heapChild node := by
+  unfold Gen.PS_heapChild; omega
+
+/-- **the pop loop places every position but the first**: it visits `len - 1, …, 1` -/
+theorem C18_heap_pop_covers (len : Nat) : Gen.PS_heapPopLo len = 1 ∧ Gen.PS_heapPopHi len = len := by
+  unfold Gen.PS_heapPopLo Gen.PS_heapPopHi; exact ⟨rfl, rfl⟩
+
 /-! ## uniqueness of the sorted order: thread-count independence -/
 
 /-- two lists sorted by the same strict order in which distinct elements are always comparable, and
